@@ -103,7 +103,7 @@ func (d *tDecoder) Decode(b []byte, base unsafe.Pointer, sd *structDesc, maxdept
 
 		f := sd.GetField(fid)
 		if f == nil || f.Type.WT != tp {
-			n, err := thrift.Binary.Skip(b[i:], thrift.TType(tp))
+			n, err := skipUnknown(b[i:], tp)
 			if err != nil {
 				return i, fmt.Errorf("skip unknown field %d of struct %s err: %w", fid, sd.rt.String(), err)
 			}
@@ -148,6 +148,22 @@ func (d *tDecoder) Decode(b []byte, base unsafe.Pointer, sd *structDesc, maxdept
 		*(*[]byte)(unsafe.Add(base, sd.unknownFieldsOffset)) = ufs.Copy(b)
 	}
 	return i, nil
+}
+
+// skipUnknown skips the value of an unrecognized field. thrift.Binary.Skip of
+// gopkg v0.2.0 indexes its size table with the signed wire type code, so a type
+// code >= 0x80 - in the field header or anywhere inside the skipped value -
+// panics instead of returning an error.
+func skipUnknown(b []byte, tp ttype) (n int, err error) {
+	if tp >= 0x80 {
+		return 0, thrift.NewProtocolException(thrift.INVALID_DATA, fmt.Sprintf("unknown data type %d", tp))
+	}
+	defer func() {
+		if r := recover(); r != nil {
+			n, err = 0, thrift.NewProtocolException(thrift.INVALID_DATA, fmt.Sprintf("unknown data type in skipped field: %v", r))
+		}
+	}()
+	return thrift.Binary.Skip(b, thrift.TType(tp))
 }
 
 func decodeFixedSizeTypes(t ttype, b []byte, p unsafe.Pointer) int {
